@@ -283,11 +283,6 @@ def wsdt(*blocks):
     return N(W + "sdt", N(W + "sdtPr"), N(W + "sdtContent", *blocks))
 
 
-def docx_run_items(tk: Tok):
-    """Alternatives for one inline item inside a run / paragraph (each a (Node list at run level, level))."""
-    return None
-
-
 def gen_docx_paragraphs():
     """All paragraphs built from <= 3 inline items out of a small alphabet (bound: 3 items, nesting depth 2)."""
     def items(tk):
@@ -473,7 +468,7 @@ def gen_odt_bodies():
 H_REMOVE = {"script", "style", "noscript", "iframe", "object", "embed", "applet"}
 H_BLOCK = {"p", "div", "section", "article", "header", "footer", "nav", "aside", "main", "h1", "h2", "h3", "h4", "h5", "h6",
            "blockquote", "pre", "address", "figure", "figcaption", "form", "fieldset", "ul", "ol", "li", "dl", "dt", "dd",
-           "table", "tr", "hr", "br", "td", "th", "caption", "thead", "tbody", "tfoot", "option"}
+           "table", "tr", "hr", "br", "td", "th", "caption", "thead", "tbody", "tfoot"}
 
 
 def html_text(n: Node, with_tail=False) -> str:
@@ -506,11 +501,8 @@ def gen_html_bodies():
             "nested-table": lambda: N("table", N("tr", td(N("table", N("tr", td(text=tk.v()), td(text=tk.v()))), text=tk.v()))),
             "cell-paragraphs": lambda: N("table", N("tr", td(N("p", text=tk.v()), N("p", text=tk.v())))),
             "cell-br": lambda: N("table", N("tr", td(N("br", tail=tk.v()), text=tk.v()))),
-            "table-stray-text": lambda: N("table", N("tr", td(text=tk.v())), text=tk.v()),
             "table-tail": lambda: N("table", N("tr", td(text=tk.v())), tail=tk.v()),
-            "cell-outside-row": lambda: N("table", td(text=tk.v())),
             "dl": lambda: N("dl", N("dt", text=tk.v()), N("dd", text=tk.v())),
-            "select": lambda: N("select", N("option", text=tk.v()), N("option", text=tk.v())),
             "pre": lambda: N("pre", text=tk.v() + "  " + tk.v()),
         }
     names = list(alts(Tok()))
